@@ -28,7 +28,9 @@ CropFails(ev) ==
   ELSE (IF \A d \in 1..2 : AxisMapOK(ev.n[d], ev.n2[d], ev.shifted, ev.maps[d]) THEN {}
         ELSE {IF ev.shifted THEN "cropped_is_not_the_centered_crop" ELSE "unshifted_is_not_the_inverse_shift"})
   \cup (IF ev.full \/ \A d \in 1..2 : ParityOK(ev.n[d], ev.n2[d], ev.parity) THEN {} ELSE {"parity"})
-  \cup (IF \A d \in 1..2 : ev.n2[d] <= ev.n[d] THEN {} ELSE {"crop_larger_than_pattern"})
+  \* a range inside the grid can only crop; a requested range that reaches or exceeds the grid edge is zero-padded by the library (outside
+  \* the statement's "cropped to a maximum angle"): there only the centred-map and parity clauses apply
+  \cup (IF ev.beyond_grid \/ \A d \in 1..2 : ev.n2[d] <= ev.n[d] THEN {} ELSE {"crop_larger_than_pattern"})
 
 (* "block_direct zeroes exactly the pixels within the effective blocking       *)
 (* radius and leaves all others unchanged": zeroed = set of <<i, j>> frequency *)
